@@ -149,10 +149,11 @@ def voxel_points(bases, n, variant, cutoff, phase):
     for g in range(ngroups):
         b = bases[(variant * ngroups + g) % len(bases)]
         p0 = np.array(b[:3])
-        pts.append(p0)
+        grp = [p0]
         for p in range(1, per):
             u, inside = _PARTNERS[(p - 1 + 3 * phase + g) % len(_PARTNERS)]
-            pts.append(p0 + np.array(u) * float(cutoff) * (IN_F if inside else OUT_F))
+            grp.append(p0 + np.array(u) * float(cutoff) * (IN_F if inside else OUT_F))
+        pts += grp[::-1] if phase else grp      # phase 1: the base point has the highest index of its group
     return np.array(pts[:n])
 
 
